@@ -2001,7 +2001,7 @@ package spec
 
 //@ func (OrderSchemaItems).MarshalJSON
 //@   property C06, C01
-//@   assigns  ghost(bufText, gobVal)
+//@   assigns  ghost(bufText, gobVal, bufStream)
 //@   ensures  [C06,C01] names-quoted @@ result1 == nil ==> textOf(result0) == objText(items, len(items)) + "}"
 //@   loop 0 invariant 0 <= $i0 && $i0 <= len(items) && buf != nil && bufText[buf] == objText(items, $i0)
 
